@@ -129,3 +129,139 @@ Proof.
   destruct H' as [?|?]; [contradiction | lia].
 Qed.
 
+
+(* ---- lists of mutations relative to a reference (list_mut_loop) ------------------------------- *)
+Definition m_ref (m : mutation) : byte := fst (fst m).
+Definition m_pos (m : mutation) : Z := snd (fst m).
+Definition m_alt (m : mutation) : list byte := snd m.
+Definition is_insertion (m : mutation) : bool := beqb (m_ref m) GAP.
+
+Lemma flush_alts cur refi : flat_map m_alt (filter is_insertion (flush cur refi)) = cur.
+Proof. destruct cur as [|b t]; [reflexivity|]. unfold flush, is_insertion, m_ref, m_alt. cbn. rewrite ?beqb_refl. cbn. rewrite ?app_nil_r. reflexivity. Qed.
+
+Lemma flush_no_subst cur refi : filter (fun m => negb (is_insertion m)) (flush cur refi) = [].
+Proof. destruct cur as [|b t]; [reflexivity|]. unfold flush, is_insertion, m_ref. cbn. rewrite ?beqb_refl. reflexivity. Qed.
+
+(* the residues standing in front of the gaps of the reference are exactly the residues reported as
+   insertions, in order: nothing lost, nothing invented, whatever the grouping *)
+Theorem insertions_conserve_residues all : forall cols cur refi,
+  flat_map m_alt (filter is_insertion (list_mut_loop all cols cur refi)) =
+  cur ++ map (fun c => fst (fst c)) (filter (fun c => beqb (snd (fst c)) GAP && negb (beqb (fst (fst c)) GAP)) cols).
+Proof.
+  induction cols as [|[[b rb] eq] t IH]; intros cur refi; cbn [list_mut_loop].
+  - rewrite flush_alts. cbn. rewrite app_nil_r. reflexivity.
+  - cbn [filter map fst snd]. destruct (beqb rb GAP) eqn:Er.
+    + rewrite IH. cbn [andb]. destruct (beqb b GAP); cbn [negb]; [reflexivity|].
+      cbn [map fst]. rewrite <- app_assoc. reflexivity.
+    + cbn [andb]. rewrite !filter_app, !flat_map_app, flush_alts, IH. cbn [app].
+      destruct (negb (beqb b all) && negb eq); [|reflexivity].
+      cbn [filter]. unfold is_insertion at 1, m_ref. cbn [fst]. rewrite Er. reflexivity.
+Qed.
+
+(* the substitution / deletion entries are exactly the reference residues whose opposite character is
+   neither the wildcard nor compatible, each at its ungapped reference coordinate *)
+Fixpoint subst_spec (all : byte) (cols : list (byte * byte * bool)) (refi : Z) : list mutation :=
+  match cols with
+  | [] => []
+  | (b, rb, eq) :: t =>
+      if beqb rb GAP then subst_spec all t refi
+      else (if negb (beqb b all) && negb eq then [(rb, refi, [b])] else []) ++ subst_spec all t (refi + 1)
+  end.
+
+Theorem substitutions_are_the_incompatible_residues all : forall cols cur refi,
+  filter (fun m => negb (is_insertion m)) (list_mut_loop all cols cur refi) = subst_spec all cols refi.
+Proof.
+  induction cols as [|[[b rb] eq] t IH]; intros cur refi; cbn [list_mut_loop subst_spec].
+  - apply flush_no_subst.
+  - destruct (beqb rb GAP) eqn:Er; [apply IH|].
+    rewrite !filter_app, flush_no_subst, IH. cbn [app]. f_equal.
+    destruct (negb (beqb b all) && negb eq); [|reflexivity].
+    cbn [filter]. unfold is_insertion, m_ref. cbn [fst]. rewrite Er. reflexivity.
+Qed.
+
+(* positions never decrease, and an insertion is reported at most once per reference coordinate *)
+Fixpoint pos_sorted (lo : Z) (l : list mutation) : bool :=
+  match l with
+  | [] => true
+  | m :: t => (lo <=? m_pos m)%Z && pos_sorted (m_pos m) t
+  end.
+
+Lemma pos_sorted_weaken lo lo' l : (lo' <= lo)%Z -> pos_sorted lo l = true -> pos_sorted lo' l = true.
+Proof.
+  destruct l as [|m t]; [reflexivity|]. cbn [pos_sorted]. intros H. rewrite !andb_true_iff, !Z.leb_le. intros [H1 H2].
+  split; [lia | exact H2].
+Qed.
+
+Theorem positions_non_decreasing all : forall cols cur refi,
+  pos_sorted refi (list_mut_loop all cols cur refi) = true.
+Proof.
+  induction cols as [|[[b rb] eq] t IH]; intros cur refi; cbn [list_mut_loop].
+  - destruct cur; unfold flush; cbn; [reflexivity|]. unfold m_pos. cbn. rewrite Z.leb_refl. reflexivity.
+  - destruct (beqb rb GAP); [apply IH|].
+    assert (T : pos_sorted refi (list_mut_loop all t [] (refi + 1)) = true).
+    { apply (pos_sorted_weaken (refi + 1)); [lia | apply IH]. }
+    destruct cur as [|c cs]; destruct (negb (beqb b all) && negb eq); unfold flush; cbn [app pos_sorted]; unfold m_pos; cbn [fst snd];
+      rewrite ?Z.leb_refl; cbn [andb]; exact T.
+Qed.
+
+(* the count of NumMutationsComparedToReferenceSequence (protein / unknown alphabets) is the number of
+   listed substitutions whose alternative is a residue (deletions are listed, not counted) *)
+Lemma subst_spec_count_aa : forall (s ref : list byte) refi,
+  length (filter (fun m => negb (bytes_eqb (m_alt m) [GAP]))
+                 (subst_spec ALL_AMINO (map (fun x => (fst x, snd x, beqb (fst x) (snd x))) (combine s ref)) refi)) =
+  length (filter (fun x => let '(b, r) := x in negb (beqb r GAP) && negb (beqb b GAP) && negb (beqb b ALL_AMINO) && negb (beqb b r))
+                 (combine s ref)).
+Proof.
+  induction s as [|b s IH]; intros ref refi; [reflexivity|]. destruct ref as [|r ref]; [reflexivity|].
+  cbn [combine map fst snd subst_spec filter]. destruct (beqb r GAP) eqn:Er; cbn [negb andb]; [apply IH|].
+  rewrite filter_app, app_length, IH. f_equal.
+  destruct (beqb b ALL_AMINO); cbn [negb andb]; [rewrite andb_false_r; reflexivity|].
+  destruct (beqb b r); cbn [negb andb]; [rewrite andb_false_r; reflexivity|].
+  cbn [filter]. unfold m_alt. cbn [snd].
+  assert (E : bytes_eqb [b] [GAP] = beqb b GAP).
+  { destruct (beqb b GAP) eqn:Eb.
+    - apply beqb_eq in Eb. subst b. reflexivity.
+    - destruct (bytes_eqb [b] [GAP]) eqn:E; [|reflexivity]. apply bytes_eqb_eq in E. injection E as ->.
+      rewrite beqb_refl in Eb. discriminate. }
+  rewrite E. destruct (beqb b GAP); reflexivity.
+Qed.
+
+Lemma filter_split_length {A} (P Q : A -> bool) (l : list A) :
+  length (filter P l) = length (filter (fun x => Q x && P x) l) + length (filter (fun x => negb (Q x) && P x) l).
+Proof.
+  induction l as [|x t IH]; [reflexivity|]. cbn [filter]. destruct (Q x), (P x); cbn [andb negb length]; lia.
+Qed.
+
+Lemma filter_and {A} (P Q : A -> bool) (l : list A) :
+  filter (fun x => P x && Q x) l = filter Q (filter P l).
+Proof.
+  induction l as [|x t IH]; [reflexivity|]. cbn [filter]. destruct (P x); cbn [andb filter]; [|exact IH].
+  destruct (Q x); [f_equal|]; exact IH.
+Qed.
+
+(* count and list agree (protein / unknown alphabets): the count is the number of listed substitutions by
+   a residue plus the number of inserted residues other than the wildcard *)
+Theorem count_is_list_aa alphabet ref s :
+  Z.eqb alphabet NUCLEOTIDS = false -> length ref = length s ->
+  exists l, list_mutations_vs_ref alphabet ref s = Some l /\
+    num_mutations_vs_ref alphabet ref s =
+      Some (length (filter (fun m => negb (is_insertion m) && negb (bytes_eqb (m_alt m) [GAP])) l) +
+            length (filter (fun b => negb (beqb b ALL_AMINO)) (flat_map m_alt (filter is_insertion l)))).
+Proof.
+  intros Ha Hl. unfold list_mutations_vs_ref, num_mutations_vs_ref. rewrite Hl, Nat.eqb_refl, Ha. cbn [negb].
+  eexists. split; [reflexivity|]. f_equal.
+  set (cols := map (fun x : byte * byte => (fst x, snd x, beqb (fst x) (snd x))) (combine s ref)).
+  rewrite insertions_conserve_residues. cbn [app].
+  rewrite (filter_and (fun m => negb (is_insertion m)) (fun m => negb (bytes_eqb (m_alt m) [GAP]))).
+  rewrite substitutions_are_the_incompatible_residues. subst cols. rewrite subst_spec_count_aa.
+  rewrite (filter_split_length _ (fun x : byte * byte => negb (beqb (snd x) GAP)) (combine s ref)). f_equal.
+  - f_equal. apply filter_ext. intros [b r]. cbn [fst snd]. rewrite <- !andb_assoc. reflexivity.
+  - clear Hl. generalize (combine s ref) as l. induction l as [|[b r] t IH]; [reflexivity|].
+    cbn [filter map fst snd]. rewrite negb_involutive.
+    destruct (beqb r GAP) eqn:Er; cbn [andb]; [|exact IH].
+    destruct (beqb b GAP) eqn:Eb; cbn [negb andb]; [exact IH|].
+    cbn [filter map fst]. destruct (beqb b ALL_AMINO) eqn:Ex; cbn [negb andb]; [exact IH|].
+    assert (beqb b r = false) as ->.
+    { destruct (beqb b r) eqn:E; [|reflexivity]. apply beqb_eq in E. subst r. congruence. }
+    cbn [negb length]. f_equal. exact IH.
+Qed.
